@@ -241,7 +241,7 @@ func runC13(r *core.Run) {
 				bd = 2 // cost bound, recorded below
 				r.Note("bound 2 (not 3) for default buffer 7 on stream " + s.Name)
 			}
-			e := &core.Explorer{Bound: bd, Workers: r.Workers, Body: func(x *core.X) { c13Body(r, s, p, x) },
+			e := &core.Explorer{Ctx: r, Name: "C13 " + s.Name, Bound: bd, Workers: r.Workers, Body: func(x *core.X) { c13Body(r, s, p, x) },
 				Stop: func() bool { return r.Expired("deviation-bounded schedules") }}
 			e.Run()
 			totalExec += e.Executions
@@ -266,7 +266,7 @@ func runC13(r *core.Run) {
 			}
 		}
 		p := C13Case{Stream: s.Name, Level: level, DefBuf: 4096}
-		e := &core.Explorer{Bound: 1, Workers: r.Workers, Body: func(x *core.X) { c13Body(r, s, p, x) },
+		e := &core.Explorer{Ctx: r, Name: "C13 " + s.Name, Bound: 1, Workers: r.Workers, Body: func(x *core.X) { c13Body(r, s, p, x) },
 			Stop: func() bool { return r.Expired("deviation-bounded schedules (long streams)") }}
 		e.Run()
 		totalExec += e.Executions
